@@ -8,8 +8,8 @@ package streamfilter
 //	(3) a flow whose filter accepts the transaction is selected unless a flow with a more specific URL pattern that
 //	    also matches is configured (the engine applies the most specific matching nodes).
 //
-// Exhaustive over: every set of 1..3 flows out of 11 (URL pattern, method constraint) filters (one written with a trailing slash) under one host, EVERY load
-// order, 8 request URLs x 2 methods. The REAL FilterTree.AddFlow / GetFlow run. Labelled bounded: never counted as proved.
+// Exhaustive over: every set of 1..3 flows out of 13 (URL pattern, method constraint) filters (one written with a trailing slash, two on a host written with an upper-case letter), EVERY load
+// order, 9 request URLs x 2 methods. The REAL FilterTree.AddFlow / GetFlow run. Labelled bounded: never counted as proved.
 
 import (
 	"sort"
@@ -69,8 +69,9 @@ func TestBoundedC03LoadOrderAndOwnFilter(t *testing.T) {
 	filters := []c03Filter{
 		{"a.com/*", ""}, {"a.com/*", "GET"}, {"a.com/x", ""}, {"a.com/x", "POST"}, {"a.com/{p}", "GET"},
 		{"a.com/x/*", ""}, {"a.com/x/y", "GET"}, {"a.com/{p}/y", ""}, {"a.com", ""}, {"a.com/x/y/*", "POST"}, {"a.com/x/", "GET"},
+		{"B.com/x", "GET"}, {"B.com/x", "POST"}, // a host written with an upper-case letter, declared twice
 	}
-	urls := []string{"a.com", "a.com/x", "a.com/y", "a.com/x/y", "a.com/y/y", "a.com/x/z", "a.com/x/y/z", "a.com/y/z/w"}
+	urls := []string{"B.com/x", "a.com", "a.com/x", "a.com/y", "a.com/x/y", "a.com/y/y", "a.com/x/z", "a.com/x/y/z", "a.com/y/z/w"}
 	reqMethods := []string{"GET", "POST"}
 	var sets [][]int
 	for i := range filters {
